@@ -45,6 +45,9 @@ type Case struct {
 	// Model: the request names a model that no endpoint lists, so that model routing falls back.
 	Strategy string `json:"strategy,omitempty"`
 	Model    bool   `json:"model,omitempty"`
+	// Elsewhere: the model the request names is listed, but only by the deployment's endpoints of
+	// an incompatible kind (implies Model)
+	Elsewhere bool `json:"elsewhere,omitempty"`
 }
 
 var (
@@ -220,6 +223,15 @@ func runCase(c Case) []ev.Violation {
 		rec.Inconclusive(fmt.Sprintf("deploy %+v: %v", c.EPs, err))
 		return nil
 	}
+	if c.Elsewhere {
+		for i, e := range c.EPs {
+			if !compatible(c.Prefix, e.Type) && !e.Dead {
+				_ = r.s.RegisterModels(r.be[i].URL(), "verif-model-nobody-lists")
+			}
+		}
+		time.Sleep(30 * time.Millisecond) // asynchronous unification
+		rec.Class("request-names-model-listed-by-other-kind-only")
+	}
 	reqBody := `{"prompt":"hi","messages":[{"role":"user","content":"hi"}]}`
 	if c.Model {
 		reqBody = `{"model":"verif-model-nobody-lists","prompt":"hi","messages":[{"role":"user","content":"hi"}]}`
@@ -336,6 +348,7 @@ func genCase(t *rapid.T) Case {
 	if rapid.IntRange(0, 3).Draw(t, "strat") == 0 {
 		c.Strategy = rapid.SampledFrom([]string{"discovery/all/refresh", "discovery/all", "optimistic/all", "discovery/compatible_only/refresh", "optimistic/none"}).Draw(t, "strategy")
 		c.Model = rapid.IntRange(0, 3).Draw(t, "model") > 0
+		c.Elsewhere = c.Model && rapid.Bool().Draw(t, "elsewhere")
 		c.Method = "POST"
 	}
 	return c
@@ -384,6 +397,9 @@ type ListCase struct {
 	Prefix string `json:"prefix"`
 	EPs    []EP   `json:"eps"`
 	Route  string `json:"route"` // v1/models | native
+	// Dropped: after the first discovery every compatible endpoint re-lists without the shared
+	// model (it stays healthy); only endpoints of other kinds still have it
+	Dropped bool `json:"dropped,omitempty"`
 }
 
 var modelTok = regexp.MustCompile(`vm-e([0-9])`)
@@ -405,6 +421,15 @@ func runList(c ListCase) []ev.Violation {
 	for i, u := range urls {
 		// two models only this endpoint has, and one that every endpoint lists
 		_ = r.s.RegisterModels(u, fmt.Sprintf("vm-e%d-only", i), fmt.Sprintf("vm-e%d-also", i), "vm-shared-by-all")
+	}
+	if c.Dropped {
+		time.Sleep(40 * time.Millisecond) // let the first listings be unified
+		for i, u := range urls {
+			if compatible(c.Prefix, c.EPs[i].Type) {
+				_ = r.s.RegisterModels(u, fmt.Sprintf("vm-e%d-only", i), fmt.Sprintf("vm-e%d-also", i))
+			}
+		}
+		rec.Class("listing/compatible-endpoints-dropped-the-shared-model")
 	}
 	path := "v1/models"
 	if c.Route == "native" {
@@ -461,6 +486,10 @@ func runList(c ListCase) []ev.Violation {
 	for _, m := range modelTok.FindAllStringSubmatch(last, -1) {
 		seen[m[1]] = true
 	}
+	if strings.Contains(last, "vm-shared-by-all") && c.Dropped {
+		vs = append(vs, ev.Violation{Sig: "listing-shows-model-dropped-by-every-provider-endpoint",
+			Detail: fmt.Sprintf("engine=%s GET /olla/%s/%s with endpoints %+v: every compatible endpoint re-listed without the shared model, only other kinds still have it, yet it is listed; body %q", c.Engine, c.Prefix, path, c.EPs, trunc([]byte(last), 300))})
+	}
 	if strings.Contains(last, "vm-shared-by-all") && len(allowed) == 0 {
 		vs = append(vs, ev.Violation{Sig: "listing-shows-shared-model-without-available-provider-endpoint",
 			Detail: fmt.Sprintf("engine=%s GET /olla/%s/%s with endpoints %+v lists the model every endpoint has although no healthy endpoint of a compatible type exists; body %q", c.Engine, c.Prefix, path, c.EPs, trunc([]byte(last), 300))})
@@ -482,7 +511,7 @@ func runList(c ListCase) []ev.Violation {
 
 func genList(t *rapid.T) ListCase {
 	c := genCase(t)
-	return ListCase{Engine: c.Engine, Prefix: c.Prefix, EPs: c.EPs, Route: rapid.SampledFrom([]string{"v1/models", "native"}).Draw(t, "route")}
+	return ListCase{Engine: c.Engine, Prefix: c.Prefix, EPs: c.EPs, Route: rapid.SampledFrom([]string{"v1/models", "native"}).Draw(t, "route"), Dropped: rapid.IntRange(0, 2).Draw(t, "dropped") == 0}
 }
 
 func TestC11(t *testing.T) {
